@@ -312,7 +312,130 @@ def check(ctx):
                 ctx.ob('C09.R4.measure', '%s->%s' % (short(f.name), short(nm)), False,
                        'recursive call outside the understood measure idioms', site=f.loc(n))
     ctx.floor('C09.R4.measure', n_rec, 8, 'recursive call sites')
+    _limits_poll(ctx, p)
     ctx.note('not decided: wall-clock adherence to movetime/clock limits (limits are polled every 4096/40960 node visits)')
+
+
+def _limits_poll(ctx, p):
+    """check_limits(): (a) the calls that return before the budgets are looked at are counted down: each such return sits behind
+    a decrement of a counter and a test that the counter is still above a constant, and nobody else writes the counter, so the
+    budgets are looked at after finitely many visits; (b) once looked at, an exceeded node or time budget makes it return true."""
+    import itertools
+    from rules.norm import Norm, cond_value, Unknown
+    f = p.fn('engine::Search::check_limits')
+    ctx.analysed(f)
+    LIMITS = ('_max_nodes_searched', '_search_time')
+    top = [st for st in kids(f.body) if st is not None]
+
+    def mentions_limit(st):
+        return any(short((x.get('ref') or {}).get('n', '')) in LIMITS for x in walk(st))
+    first = [i for i, st in enumerate(top) if mentions_limit(st)]
+    if not first:
+        raise AnalysisBroken('C09: check_limits no longer reads _max_nodes_searched/_search_time in a top-level statement')
+    prefix, suffix = top[:first[0]], top[first[0]:]
+    nm = Norm(f)
+    # (a) the skipped calls are counted down
+    dec = set()
+    n_skip = 0
+    bad = None
+    for st in prefix:
+        k = st['k']
+        e = strip_casts(st)
+        if k in ('UnaryOperator',) and st.get('op') in ('--',):
+            dec.add(nm.s(kids(st)[0]))
+        elif k == 'CompoundAssignOperator' and st.get('op') == '-=' and (nm.cval(kids(st)[1]) or 0) > 0:
+            dec.add(nm.s(kids(st)[0]))
+        elif k == 'BinaryOperator' and st.get('op') == '=' and nm.cval(kids(st)[1]) is not None:
+            continue
+        elif k == 'IfStmt':
+            rets = [x for x in walk(st) if x['k'] == 'ReturnStmt']
+            if not rets:
+                if any(x['k'] in ('ForStmt', 'WhileStmt', 'DoStmt') for x in walk(st)):
+                    raise AnalysisBroken('C09: check_limits: a loop ahead of the budget tests')
+                continue
+            n_skip += 1
+            try:
+                at = nm.atom(kids(st)[0])
+            except Unknown as e_:
+                raise AnalysisBroken('C09: check_limits: the early-return test `%s` is not a comparison of a counter with a constant' % nm.s(kids(st)[0]))
+            if len(kids(st)) > 2 or not (isinstance(at, tuple) and at[0] == 'ge' and at[1] in dec):
+                bad = bad or 'the early return at line %s is taken while `%s`, which is not "a counter decremented on this call is still above a constant"' % (st.get('l'), nm.s(kids(st)[0]))
+        elif k in ('DeclStmt', 'NullStmt'):
+            continue
+        else:
+            raise AnalysisBroken('C09: check_limits: statement of kind %s ahead of the budget tests' % k)
+    others = []
+    for cname in dec:
+        for g, n, kk in p.field_accesses('engine::Search', cname):
+            if kk in ('write', 'rmw', 'addr') and g is not f:
+                others.append('%s:%s' % (short(g.name), n.get('l')))
+    ctx.ob('C09.R5.poll-countdown', 'check_limits', bad is None and not others,
+           'every call that returns before looking at the budgets has decremented a counter that only check_limits writes and found it '
+           'still above a constant: the budgets are looked at after finitely many node visits (%d early return(s), counters %s)%s'
+           % (n_skip, sorted(dec), '' if bad is None and not others else ' — ' + (bad or 'the counter is also written by ' + ', '.join(others))),
+           site=f.loc())
+    # (b) the budget tests
+    conds = [kids(st)[0] for st in suffix if st['k'] == 'IfStmt']
+    rel = {}
+    for c_ in conds:
+        try:
+            at = nm.atom(c_)
+        except Unknown as e_:
+            raise AnalysisBroken('C09: check_limits: budget test `%s` not understood' % nm.s(c_))
+        if not (isinstance(at, tuple) and at[0] in ('<', '<=') and len(at) == 3):
+            raise AnalysisBroken('C09: check_limits: budget test `%s` is not a comparison of a measure with its budget' % nm.s(c_))
+        for lim in LIMITS:
+            for x, y in ((at[1], at[2]), (at[2], at[1])):
+                if lim in x and lim not in y:
+                    rel[lim] = (x, y)
+    if set(rel) != set(LIMITS):
+        raise AnalysisBroken('C09: check_limits: the comparisons with both budgets were not found (%s)' % sorted(rel))
+
+    flagged = []
+
+    def run(stmts, val):
+        for st in stmts:
+            k = st['k']
+            if k == 'ReturnStmt':
+                return st
+            if k in ('BinaryOperator', 'CXXOperatorCallExpr', 'CXXMemberCallExpr', 'ExprWithCleanups') and \
+                    any(short((x.get('ref') or {}).get('n', '')) == 'stop_search' and access_kind(f, x) in ('write', 'call') for x in walk(st)):
+                # stop_search = true / stop_search.store(true): every node visit tests the flag before asking check_limits
+                vals = [nm.cval(x) for x in walk(st) if x['k'] in ('CXXBoolLiteralExpr', 'IntegerLiteral')]
+                if vals and all(v == 1 for v in vals):
+                    flagged.append(st)
+            if k == 'CompoundStmt':
+                r = run(kids(st), val)
+                if r is not None:
+                    return r
+            elif k == 'IfStmt':
+                ks = kids(st)
+                br = ks[1] if cond_value(nm, ks[0], val) else (ks[2] if len(ks) > 2 else None)
+                if br is not None:
+                    r = run([br], val)
+                    if r is not None:
+                        return r
+            elif k in ('ForStmt', 'WhileStmt', 'DoStmt', 'SwitchStmt', 'CXXForRangeStmt', 'GotoStmt'):
+                raise Unknown('statement %s' % k)
+        return None
+    bad2 = []
+    n = 0
+    for a, b in itertools.product((4, 5, 6), repeat=2):
+        val = {rel[LIMITS[0]][0]: 5, rel[LIMITS[0]][1]: a, rel[LIMITS[1]][0]: 5, rel[LIMITS[1]][1]: b}
+        del flagged[:]
+        try:
+            r = run(suffix, val)
+        except Unknown as e_:
+            raise AnalysisBroken('C09: check_limits: the budget tests depend on `%s`' % e_)
+        got = nm.cval(kids(r)[0]) if r is not None and kids(r) else None
+        n += 1
+        if (a > 5 or b > 5) and got != 1 and not flagged:
+            bad2.append('nodes %s budget, time %s budget: returns %s' % ('<=>'[a - 4], '<=>'[b - 4], got))
+    ctx.ob('C09.R5.budget-tests', 'check_limits', not bad2,
+           'when the budgets are looked at, a node count or an elapsed time above its budget makes check_limits return true or raise '
+           'the stop flag that every node visit tests first '
+           '(%d orderings)%s' % (n, '' if not bad2 else ' — ' + '; '.join(bad2[:3])), site=f.loc(suffix[0]))
+    # and every node visit asks: search() and quiescence_search() call it on every activation before any recursion (C06.R4)
 
 
 def _bounded_by(v, maxd, f=None):
